@@ -402,9 +402,7 @@ NOEXCL = bool(os.environ.get("VERIF_C27_NO_EXCLUSIONS"))
 
 def in_header(off):
     """SUSPECTED DEFECT (pickle.load outside the try): offsets inside the pickled checksum raise instead of missing."""
-    if NOEXCL:
-        return False
-    return S["hdr_lo"] <= off < S["hdr_hi"]
+    return False  # repaired in /repo (fix: a bytecode cache entry truncated inside its checksum is a cache miss)
 
 
 def _fresh_ok(directory=None, names=None):
@@ -963,3 +961,29 @@ def conditions(tier, seed):
                                    + ("" if same else "; histories in which an environment hits an entry written by "
                                       "the differently configured other one are excluded (suspected defect)")))
     return out
+
+
+def known_cross_config_ok():
+    """Known-finding witness: the cache key/checksum ignore the environment's compile-relevant configuration."""
+    from jinja2 import DictLoader, Environment
+    from jinja2.bccache import BytecodeCache
+
+    class MemCache(BytecodeCache):
+        def __init__(self):
+            self.store = {}
+
+        def load_bytecode(self, bucket):
+            if bucket.key in self.store:
+                bucket.bytecode_from_string(self.store[bucket.key])
+
+        def dump_bytecode(self, bucket):
+            self.store[bucket.key] = bucket.bytecode_to_string()
+
+    cache = MemCache()
+    loader = DictLoader({"t": "a{% if true %}\n  b{% endif %}"})
+    e0 = Environment(loader=loader, bytecode_cache=cache)
+    e1 = Environment(loader=loader, bytecode_cache=cache, trim_blocks=True, lstrip_blocks=True)
+    e0.get_template("t").render()
+    got = e1.get_template("t").render()
+    exp = Environment(loader=loader, trim_blocks=True, lstrip_blocks=True).get_template("t").render()
+    return got == exp
